@@ -3,7 +3,11 @@
 
 use serde::Deserialize;
 
-use crate::{absent_nullable::AbsentNullable, traits::Serial, Settings, SlinkyError};
+use crate::{
+    absent_nullable::{deserialize_non_null_string, AbsentNullable},
+    traits::Serial,
+    Settings, SlinkyError,
+};
 
 #[derive(PartialEq, Debug, Clone)]
 pub struct SymbolAssignment {
@@ -29,7 +33,9 @@ pub struct SymbolAssignment {
 #[derive(Deserialize, PartialEq, Debug)]
 #[serde(deny_unknown_fields)]
 pub(crate) struct SymbolAssignmentSerial {
+    #[serde(deserialize_with = "deserialize_non_null_string")]
     pub name: String,
+    #[serde(deserialize_with = "deserialize_non_null_string")]
     pub value: String,
 
     #[serde(default)]
